@@ -191,11 +191,20 @@ class SetupRec(Val):
         self.s = s
 
 
-class Rec(Val):
-    """a record array (channels x samples) whose rows are the given channel groups"""
+class Rec(ObjVal):
+    """a record array (channels x samples) whose rows are the given channel groups (carried through lists: np.vstack([ref, mov]))"""
 
     def __init__(self, groups, chan_axis=0):
         self.groups, self.chan_axis = tuple(groups), chan_axis
+
+    def subs(self, name, val):
+        return Rec(gsubs(self.groups, name, val), self.chan_axis)
+
+    def show(self):
+        return f"Rec{gshow(self.groups)}"
+
+    def __repr__(self):
+        return self.show()
 
 
 STD_LAY = (0, 1, 2)
@@ -341,6 +350,9 @@ class Interp(seqdom.Interp):
                 return Mat(m.rows, m.cols, ("opq", f"non-slice index on a channel axis in `{astq.src(node, 50)}`"), m.lay)
         rows = gslice(m.rows, *sl["r"])
         cols = gslice(m.cols, *sl["c"])
+        if (rows is None or cols is None) and (fopaque(m.form) or not m.rows or not m.cols):
+            # the matrix itself was not typed: nothing can be said about where the cut falls
+            return Mat((), (), ("opq", f"`{astq.src(node, 50)}` of a matrix that was not typed"), m.lay)
         if rows is None or cols is None:
             self.err(node, f"`{astq.src(node, 60)}` cuts {m.show()} inside a channel group (bounds {sl['r']}, {sl['c']})")
             return Mat(m.rows, m.cols, ("opq", "slice across a group boundary"), m.lay)
